@@ -438,6 +438,18 @@ def unpickleSlots (bucketed : Bool) : Nat → List Nat → List Nat → Slots
       let ents := parseEntries bucketed slot ((words.take len).drop 2)
       some ⟨ents.length, ents⟩ :: unpickleSlots bucketed (slot + 1) (words.drop len) lens
 
+/-- `_equal_c_arrays` for one slot: both `NULL`, or same stored length and the same 32-bit words. -/
+def slotWordsEq (bucketed : Bool) : Option Bucket → Option Bucket → Bool
+  | none, none => true
+  | some b1, some b2 => bucketWords bucketed b1 == bucketWords bucketed b2
+  | _, _ => false
+
+/-- `table.__eq__(other)` **as written**: same class, equal base alphabet and `k` (and `n_buckets`), then
+the C-arrays word by word.  The spacing model of the k-mer alphabet is *not* compared. -/
+def tableEq (t o : Table) : Bool :=
+  t.bucketed == o.bucketed && t.alph.n == o.alph.n && t.alph.k == o.alph.k && t.nb == o.nb &&
+  t.slots.length == o.slots.length && (t.slots.zip o.slots).all fun x => slotWordsEq t.bucketed x.1 x.2
+
 def pickleRoundTrip (t : Table) : Table :=
   let (w, l) := pickleSlots t.bucketed t.slots
   { t with slots := unpickleSlots t.bucketed 0 w l }
@@ -458,6 +470,25 @@ whose total substitution score with `q` reaches the threshold. -/
 def scoreSim (a : KAlph) (mat : List Int) (thr : Int) (q : Nat) : List Nat :=
   (List.range a.size).filter fun q' =>
     decide (scoreOf a.n mat (splitCode a.n a.k q) (splitCode a.n a.k q') ≥ thr)
+
+/-- `max_scores = np.max(score_matrix, axis=-1)`: the row maxima. -/
+def rowMax (n : Nat) (mat : List Int) (x : Nat) : Int :=
+  ((List.range n).map fun y => mat[x * n + y]?.getD 0).foldl max (mat[x * n]?.getD 0)
+
+/-- the branch-and-bound search of `ScoreThresholdRule.similar_kmers` (the `while pos != -1` loop
+written as the depth-first recursion it performs): `qs` are the remaining symbols of the query
+k-mer, `score` the score of the prefix chosen so far; a symbol `c` is kept iff the prefix score
+reaches `positional_thresholds[pos] = threshold - Σ_{j>pos} max_scores[q_j]`. -/
+def bbSearch (n : Nat) (mat : List Int) (maxS : Nat → Int) (thr : Int) : List Nat → Int → List (List Nat)
+  | [], _ => [[]]
+  | qd :: qs, score =>
+    (List.range n).flatMap fun c =>
+      let sc := score + mat[qd * n + c]?.getD 0
+      if sc ≥ thr - (qs.map maxS).sum then (bbSearch n mat maxS thr qs sc).map (c :: ·) else []
+
+/-- `similar_kmers(kmer_alphabet, kmer)`: split, search, fuse. -/
+def bbSim (a : KAlph) (mat : List Int) (thr : Int) (q : Nat) : List Nat :=
+  (bbSearch a.n mat (rowMax a.n mat) thr (splitCode a.n a.k q) 0).map (fuseCodes a.n)
 
 /-! ## Permutations -/
 
@@ -612,45 +643,99 @@ def syncmerSelect (n k s : Nat) (p : Perm) (offsets : List Int) (seq : List Nat)
   | .error e, _ => .error e
   | _, .error e => .error e
 
-/-- `SyncmerSelector.select_from_kmers(kmers)` (also what `CachedSyncmerSelector` tabulates). -/
-def syncmerFromKmers (n k s : Nat) (p : Perm) (offsets : List Int) (kmers : List Nat) :
-    Except Err (List (Nat × Nat)) :=
+/-- constructor part of `SyncmerSelector`: the s-mer alphabet and the normalised offsets. -/
+def syncSetup (n k s : Nat) (offsets : List Int) : Except Err (KAlph × List Nat) :=
   if ¬ s < k then .error .valueError else
   match mkAlph n k none, mkAlph n s none with
-  | .ok ka, .ok sa =>
+  | .ok _, .ok sa =>
     match syncOffsets (k - s + 1) offsets with
     | .error e => .error e
-    | .ok offs =>
-      if ! checkBounds ka kmers then .error .alphabetError else
-      match mapMExcept (fun q =>
-          match createKmers sa (splitCode n k q) with
-          | .error e => .error e
-          | .ok smers => match p.apply smers with
-            | .error e => .error e
-            | .ok ord => match argminList ord with
-              | some m => .ok (m : Int)
-              | none => .error .valueError) kmers with
-      | .error e => .error e
-      | .ok minPos =>
-        mapMExcept (fun i => match kmers[i]? with | some q => .ok (i, q) | none => .error ub)
-          (filterSyncmer offs minPos)
+    | .ok offs => .ok (sa, offs)
   | .error e, _ => .error e
   | _, .error e => .error e
+
+/-- per-k-mer part of `select_from_kmers`: position of the (leftmost) minimal s-mer inside k-mer `q`. -/
+def syncMinPos (n k : Nat) (sa : KAlph) (p : Perm) (q : Nat) : Except Err Int :=
+  match createKmers sa (splitCode n k q) with
+  | .error e => .error e
+  | .ok smers => match p.apply smers with
+    | .error e => .error e
+    | .ok ord => match argminList ord with
+      | some m => .ok (m : Int)
+      | none => .error .valueError
+
+/-- `kmers[syncmer_pos]`: the selected indices paired with the k-mer there. -/
+def pairWithKmers (kmers : List Nat) (pos : List Nat) : Except Err (List (Nat × Nat)) :=
+  mapMExcept (fun i => match kmers[i]? with | some q => .ok (i, q) | none => .error ub) pos
+
+/-- `SyncmerSelector.select_from_kmers(kmers)`. -/
+def syncmerFromKmers (n k s : Nat) (p : Perm) (offsets : List Int) (kmers : List Nat) :
+    Except Err (List (Nat × Nat)) :=
+  match syncSetup n k s offsets with
+  | .error e => .error e
+  | .ok (sa, offs) =>
+    if ! kmers.all (· < n ^ k) then .error .alphabetError else
+    match mapMExcept (syncMinPos n k sa p) kmers with
+    | .error e => .error e
+    | .ok minPos => pairWithKmers kmers (filterSyncmer offs minPos)
+
+/-- `CachedSyncmerSelector.__init__`: `select_from_kmers` on all k-mer codes, stored as a boolean table. -/
+def cachedSyncmerMask (n k s : Nat) (p : Perm) (offsets : List Int) : Except Err (List Bool) :=
+  match syncmerFromKmers n k s p offsets (List.range (n ^ k)) with
+  | .error e => .error e
+  | .ok sel => .ok ((List.range (n ^ k)).map fun q => sel.any (fun x => x.1 == q))
+
+/-- `self._syncmer_mask[kmer]` (numpy raises `IndexError` outside the table). -/
+def maskLookup (mask : List Bool) (q : Nat) : Except Err Bool :=
+  match mask[q]? with
+  | some b => .ok b
+  | none => .error .indexError
+
+/-- `CachedSyncmerSelector.select_from_kmers(kmers)`: `np.where(mask[kmers])`, then `kmers[pos]`. -/
+def cachedSyncmerFromKmers (n k s : Nat) (p : Perm) (offsets : List Int) (kmers : List Nat) :
+    Except Err (List (Nat × Nat)) :=
+  match cachedSyncmerMask n k s p offsets with
+  | .error e => .error e
+  | .ok mask =>
+    match mapMExcept (maskLookup mask) kmers with
+    | .error e => .error e
+    | .ok flags => pairWithKmers kmers ((zipIdx flags).filterMap fun (i, b) => if b then some i else none)
+
+/-- the permutation as a function on one k-mer code (`permute` applies it element-wise). -/
+def Perm.fn (p : Perm) (q : Nat) : Except Err Int :=
+  match p with
+  | .ident => .ok (Int.ofNat q)
+  | .random => .ok (lcg q)
+  | .freq counts =>
+    match (invertMapping (stableArgsort counts))[q]? with
+    | some v => .ok (Int.ofNat v)
+    | none => .error .indexError
+  | .table vals =>
+    match vals[q]? with
+    | some v => .ok v
+    | none => .error .indexError
+
+/-- `permutation.min` (0 without permutation). -/
+def Perm.offset : Perm → Int
+  | .random => -(2 : Int) ^ 63
+  | _ => 0
+
+/-- `permutation.max - permutation.min + 1` (`len(kmer_alphabet)` without permutation). -/
+def Perm.range (size : Nat) : Perm → Int
+  | .ident => (size : Int)
+  | .random => (2 : Int) ^ 64
+  | .freq counts => (counts.length : Int)
+  | .table vals => (vals.length : Int)
 
 /-- `MincodeSelector`: positions whose permuted code is below
 `offset + range / compression`, compared exactly as `(v - offset) * compression < range`. -/
 def mincodeSelect (a : KAlph) (compression : Nat) (p : Perm) (kmers : List Nat) :
     Except Err (List (Nat × Nat)) :=
   if compression < 1 then .error .valueError else
-  let (off, range) : Int × Int := match p with
-    | .ident => (0, (a.size : Int))
-    | .random => (-(2 : Int) ^ 63, (2 : Int) ^ 64)
-    | .freq counts => (0, (counts.length : Int))
-    | .table vals => (0, (vals.length : Int))
   match p.apply kmers with
   | .error e => .error e
   | .ok ord =>
     .ok (((zipIdx kmers).zip ord).filterMap fun ((i, q), v) =>
-      if (v - off) * (compression : Int) < range then some (i, q) else none)
+      if (v - p.offset) * (compression : Int) < p.range a.size then some (i, q) else none)
 
 end BiotiteModel.C10
